@@ -66,6 +66,9 @@ func main() {
 	if refillAll.N > 0 {
 		meta.GoOnly = append(meta.GoOnly, refillAll)
 	}
+	if determAll.N > 0 {
+		meta.GoOnly = append(meta.GoOnly, determAll)
+	}
 	if attrOrderAll.N > 0 {
 		meta.GoOnly = append(meta.GoOnly, attrOrderAll)
 	}
